@@ -1,7 +1,23 @@
 """Regenerate MANIFEST.json from the table below (keeps the file valid and consistent)."""
 import json
 
+TECH = ("deductive verification: ast->VC generator (pyvc) over sidecar contracts, z3/cvc5; bounded symbolic refuter + "
+        "run-time contract replay")
+
 CLAIMED = {
+    "C01": dict(
+        category="proof",
+        text="Every obligation generated from the real ASTs of do_call (no filters/variants; all 3 methods x purity given or not "
+             "x 3 PAR builds x with/without baf), get_as_dframe_and_set_reference_and_expect_copies (with the real "
+             "chr_x/chr_y/PAR filter methods of CopyNumArray inlined), absolute_dataframe, absolute_clonal, absolute_pure, "
+             "log2_ratios, _log2_ratio_to_absolute(_pure) and _reference_copies_pure is discharged by SMT for all tables of "
+             "any length: per-row reference/expected copies equal the class table of the statement, the purity formula "
+             "inverts the mixing model (lemma L1, nonlinear), cn = n on model-consistent log2, rescaled log2 as stated for "
+             "even ploidy, cn nearest integer to r*2^log2 without purity, and cn >= 0 on every path.",
+        note="floats as reals; exp2/log2 abstract with axioms; log2_doubling identity trusted; symbolic products uninterpreted "
+             "outside the nonlinear lemma/clauses; pandas/numpy models listed in evidence.assumptions; do_call is verified "
+             "for filters=None and variants=None (filters are C14's, BAF lookup C18's)",
+        technique=TECH, design_ref="8 (C01), 3, 5"),
     "C02": dict(
         category="proof",
         text="Every obligation generated from the real AST of absolute_threshold (both loops, for/else, break, continue), "
